@@ -1,14 +1,20 @@
 #!/bin/sh
 # tools/try_patch.sh <patch.diff> <property>...   — run checks against a scratch copy of /repo with the patch applied
-# (the copy lives under a mktemp dir and is removed afterwards; /repo itself is not touched)
+# (the copies of /repo and of /verif live under a mktemp dir and are removed afterwards; neither /repo nor
+# /verif's evidence/replays are touched; the TLC result cache is shared)
 patch=$(realpath "$1"); shift
+here=$(cd "$(dirname "$0")/.." && pwd)
 tmp=$(mktemp -d /tmp/verif-mut-XXXXXX)
 trap 'rm -rf "$tmp"' EXIT
-mkdir -p "$tmp/repo"
+mkdir -p "$tmp/repo" "$tmp/verif"
 rsync -a --exclude .git --exclude __pycache__ /repo/ "$tmp/repo/"
+rsync -a --exclude .git --exclude __pycache__ --exclude .cache --exclude replays --exclude seeded "$here/" "$tmp/verif/"
+mkdir -p "$here/.cache"; ln -s "$here/.cache" "$tmp/verif/.cache"
 (cd "$tmp/repo" && patch -p1 -s < "$patch") || { echo "patch failed"; exit 2; }
-cd "$(dirname "$0")/.."
+cd "$tmp/verif"
 for p in "$@"; do
-  PYTHONPATH="$tmp/repo/python" ./check "$p" --tier "${TIER:-quick}" 2>&1 | grep -E "^(OK|VIOLATION|KNOWN|MACHINERY)" | head -3
-  echo "  -> $p exit=$?"
+  PYTHONPATH="$tmp/repo/python" ./check "$p" --tier "${TIER:-quick}" 2>&1 | grep -E "^(OK|VIOLATION|KNOWN|MACHINERY)" | cut -c1-160 | head -3
+  f=$(ls replays/$p/*.json 2>/dev/null | head -1)
+  [ -n "$f" ] && [ -n "$SHOW" ] && /venv/bin/python -c "import json;d=json.load(open('$f'));print('   what:',d.get('what','')[:200])"
+  echo "  -> $p done"
 done
